@@ -16,7 +16,7 @@ import subprocess
 import sys
 import time
 
-REPO = "/repo"
+REPO = os.environ.get("SEED_REPO", "/repo")  # a scratch worktree of /repo may be used so that /repo stays untouched
 VERIF = os.path.dirname(os.path.abspath(__file__))
 
 
@@ -42,7 +42,7 @@ def run_demo(demo):
 
 def run_check(cid, tier):
     t = time.time()
-    r = sh("cd %s && ./check %s --tier %s --no-evidence" % (VERIF, cid, tier), timeout=7200)
+    r = sh("cd %s && VERIF_REPO=%s ./check %s --tier %s --no-evidence" % (VERIF, REPO, cid, tier), timeout=7200)
     lines = [l for l in r.stdout.splitlines() if l.startswith(("VIOLATION", "  key=", "KNOWN-FINDING"))]
     return {"check": cid, "tier": tier, "exit": r.returncode, "wall_s": round(time.time() - t, 1), "lines": [l[:300] for l in lines[:8]]}
 
